@@ -1,4 +1,4 @@
 From Coq Require Import List Bool Arith Extraction ExtrOcamlBasic.
-From TP Require Import Model.FmtEdit.
+From TP Require Import Model.FmtEdit Spec.C15Judge.
 Extraction Language OCaml.
-Extraction "../.cache/ml/c15_model.ml" range_edit.
+Extraction "../.cache/ml/c15_model.ml" range_edit doc_indents.
